@@ -3,7 +3,7 @@
    projection of the state is compared with what the real code left on the in-memory file system. *)
 From Coq Require Import List Arith Bool.
 From Gopki.Model Require Import Bytes Dir Plan Run Ops Cli Current.
-From Gopki.Spec Require Import DirInv.
+From Gopki.Spec Require Import DirInv RegenSpec.
 Import ListNotations.
 
 Inductive hstep := U (o : op) | R (s : strat) (f : option (nat * outcome))
@@ -120,7 +120,8 @@ Definition rules_at (prev : option (hstep * obsT)) (st : hstep) (o : obsT) : lis
        entity that already had a certificate may have been written *)
     let '(res, w, es) := o in
     let pes := match prev with Some (_, (_, _, p)) => p | None => [] end in
-    if negb (consent inp) && existsb (fun a => bit 1 (fl pes a)) w then [6] else []
+    (if negb (consent inp) && existsb (fun a => bit 1 (fl pes a)) w then [6] else [])
+    ++ (if Nat.eqb res 3 then [8] else [])
   | R s f =>
     let '(res, w, es) := o in
     let pes := match prev with Some (_, (_, _, p)) => p | None => [] end in
@@ -143,6 +144,8 @@ Definition rules_at (prev : option (hstep * obsT)) (st : hstep) (o : obsT) : lis
         | Some (k, FailNoWrite) => if Nat.eqb res 1 && Nat.ltb k (length w) then [5] else []
         | _ => []
         end)
+    (* rule 8 (C15, C20): whatever the directory holds - torn files included - a run ends with a result, not with a panic *)
+    ++ (if Nat.eqb res 3 then [8] else [])
   end.
 
 Fixpoint impl_rules (prev : option (hstep * obsT)) (ss : list hstep) (os : list obsT) (i : nat) : list (nat * nat) :=
@@ -151,9 +154,36 @@ Fixpoint impl_rules (prev : option (hstep * obsT)) (ss : list hstep) (os : list 
   | _, _ => []
   end.
 
-(* (steps where model and implementation differ, the model's observation at the first of them, rule violations of the implementation) *)
+(* rule 7 (C11): the set of entities a successful fault-free run wrote is the set the statement of C11 demands (the relation
+   [regen], through its proved-equivalent boolean form) for the flags given and the state the history has reached.  The state is
+   the model's; it stands for the implementation's as long as every earlier step left the same observations, so the rule is only
+   evaluated up to and including the first step that differs. *)
+Definition spec_written (d : dir) (s : strat) : list nat :=
+  sort_nat (map e_alias (filter (fun e => regenb (S (length (d_ents d))) (d_ents d) s (e_alias e)) (d_ents d))).
+
+Fixpoint rule7 (d : dir) (ss : list hstep) (os : list obsT) (i : nat) : list (nat * nat) :=
+  match ss, os with
+  | st :: ss', o :: os' =>
+    let '(res, w, _) := o in
+    let '(d', mo, sopt) :=
+      match st with
+      | U op => let d' := apply_op d op in (d', (0, [], observe (d_ents d) d'), None)
+      | R s f => let '(r, d', mw) := run cur_csr cur_nilcert d s f in
+                 (d', (res_code r, mw, observe (d_ents d) d'), if has f then None else Some s)
+      | C f inp => let '(r, d', mw) := cli_sign cur_csr cur_nilcert d f inp in
+                   (d', (cli_code r, sort_nat mw, observe (d_ents d) d'), Some (strat_of_flags f))
+      end in
+    (match sopt with
+     | Some s => if Nat.eqb res 1 && negb (ln_eqb (sort_nat w) (spec_written d s)) then [(i, 7)] else []
+     | None => []
+     end)
+    ++ (if obs_eqb mo o then rule7 d' ss' os' (S i) else [])
+  | _, _ => []
+  end.
+
+(* (steps where model and implementation differ, rule violations of the implementation) *)
 Definition check_history (c : list hstep * list obsT) : list nat * list (nat * nat) :=
-  (diff 0 (exec empty_dir (fst c)) (snd c), impl_rules None (fst c) (snd c) 0).
+  (diff 0 (exec empty_dir (fst c)) (snd c), impl_rules None (fst c) (snd c) 0 ++ rule7 empty_dir (fst c) (snd c) 0).
 
 Definition run_histories (l : list (list hstep * list obsT)) : list (nat * (list nat * list (nat * nat))) :=
   filter (fun p => match snd p with ([], []) => false | _ => true end)
